@@ -42,6 +42,10 @@ type Script struct {
 	Dir   string      `json:"dir"` // c2s (client calls tools) | s2c (server calls sampling)
 	Link  wire.Config `json:"link"`
 	Steps []Step      `json:"steps"`
+	// CloseTail (single-stream links only): after Steps the answering side starts a graceful Close while
+	// handlers are still parked, then these steps (cancel / release / race / sleep) follow. Closing must not
+	// stop cancellations from reaching the handlers it is waiting for.
+	CloseTail []Step `json:"close_tail,omitempty"`
 }
 
 func genScript(rt *rapid.T) Script {
@@ -73,6 +77,18 @@ func genScript(rt *rapid.T) Script {
 			st.Ms = rapid.SampledFrom([]int{1, 19, 20, 21, 2999, 3001, 6000}).Draw(rt, "ms")
 		}
 		s.Steps = append(s.Steps, st)
+	}
+	// (Not on the legacy SSE link: its client may drop the last messages received before the end of the event
+	// stream, so the answer of a handler the closing server waited for can be lost — outside this property.)
+	if single := s.Link.Kind == wire.InMem || s.Link.Kind == wire.Pipe; single && rapid.IntRange(0, 2).Draw(rt, "closetail") == 0 {
+		for i, n := 0, rapid.IntRange(1, 8).Draw(rt, "tail"); i < n; i++ {
+			st := Step{Kind: rapid.SampledFrom([]string{"cancel", "cancel", "release", "race", "sleep"}).Draw(rt, "tkind")}
+			st.I = rapid.IntRange(0, 7).Draw(rt, "ti")
+			if st.Kind == "sleep" {
+				st.Ms = rapid.SampledFrom([]int{1, 20, 3001}).Draw(rt, "tms")
+			}
+			s.CloseTail = append(s.CloseTail, st)
+		}
 	}
 	return s
 }
@@ -303,8 +319,29 @@ func runInBubble(s Script) (res vt.Result) {
 		}
 	}
 
-	for i, st := range s.Steps {
+	steps := s.Steps
+	peerClosing := false
+	if len(s.CloseTail) > 0 {
+		steps = append(append(append([]Step{}, s.Steps...), Step{Kind: "peerclose"}), s.CloseTail...)
+	}
+	for i, st := range steps {
 		switch st.Kind {
+		case "peerclose":
+			// every accepted call gets dispatched first, then the answering side begins its graceful Close
+			blockMu.Lock()
+			if blocked {
+				close(blockCh)
+				blocked = false
+			}
+			blockMu.Unlock()
+			synctest.Wait()
+			if s.Dir == "c2s" {
+				go ss.Close()
+			} else {
+				go cs.Close()
+			}
+			peerClosing = true
+			desc.WriteString("K")
 		case "call":
 			c := &callRec{k: len(w.calls), done: make(chan struct{})}
 			ctx := bg
@@ -453,7 +490,7 @@ func runInBubble(s Script) (res vt.Result) {
 	}
 	synctest.Wait()
 	check(len(s.Steps) + 1)
-	if len(res.Violations) == 0 {
+	if len(res.Violations) == 0 && !peerClosing {
 		e1, e2 := make(chan error, 1), make(chan error, 1)
 		go func() { e1 <- cs.Ping(bg, nil) }()
 		go func() { e2 <- ss.Ping(bg, nil) }()
@@ -482,6 +519,9 @@ func finish(res vt.Result, s Script, desc *strings.Builder, w *world, cancelledI
 	}
 	if strings.Contains(desc.String(), "R") {
 		res.Class("cancel_racing_response")
+	}
+	if i := strings.Index(desc.String(), "K"); i >= 0 && strings.ContainsAny(desc.String()[i:], "xR") {
+		res.Class("cancel_while_peer_is_closing")
 	}
 	return res
 }
